@@ -141,8 +141,10 @@ def main():
     result.update(verdict='error', detail='worker failure: %r' % (e,), traceback=traceback.format_exc()[-4000:])
   result['wall_s'] = round(time.time() - t0, 2)
   result['cpu_s'] = round(time.process_time() - c0, 2)
+  # values still symbolic when the path ended (e.g. an observation dict of a refuted path) are written as a type tag
+  text = json.dumps(result, default=lambda o: '<%s>' % type(o).__name__)
   with open(out, 'w') as f:
-    json.dump(result, f)
+    f.write(text)
 
 
 if __name__ == '__main__':
